@@ -10,11 +10,14 @@ C18 — the discipline decided on the GENERATED effect summaries, and one state 
   * per exception class, either a proof that it is harmless (`report_attrs_only_printed`,
     `derived_attrs_single_writer`, `leg_generators_read_only_immutables`, `calendar_cache_written_before_read`,
     `calendar_is_holiday_state_independent`, `tree_attrs_written_by_build`, `tree_value_independent_of_previous_tree`,
-    `curve_build_once`, `date_table_harmless`, `date_format_only_read_by_printing`, `bs_nondefault_history_independent`,
-    `bond_coupon_dates_fresh_when_coupon_follows`) or a kernel-checked counterexample, which is a known finding and
-    is replayed on the implementation by harness/props/c18.py on every run (`bs_default_history_dependent`,
-    `calendar_direct_call_history_dependent`, `bond_stale_coupon_dates`, `caplet_direct_needs_value`,
-    `deposits_list_mutated`, `krd_rates_shifted`, `schedule_regenerate_differs`).
+    `curve_build_once`, `date_table_harmless`, `date_format_only_read_by_printing`) or a kernel-checked counterexample,
+    which is a known finding and is replayed on the implementation by harness/props/c18.py on every run
+    (`calendar_direct_call_history_dependent`, `schedule_regenerate_differs`);
+  * the five defects repaired in /repo (247d001, 53a2a33, b2f138f, 5c33524, 4de3863) now carry the TRUE statements,
+    on the generated data (`blackscholes_stateless`, `bond_coupon_dates_written_before_read`,
+    `no_parameter_write_to_rates_or_deposits`, `cap_day_counter_single_writer`) and on the state machines of
+    Model/C18.lean (`bs_default_history_independent`, `bond_coupon_dates_independent_of_previous_call`,
+    `caplet_direct_independent_of_value`, `deposits_list_not_mutated`, `krd_rates_not_mutated`).
 -/
 import FinVerif.Gen.Effects
 import FinVerif.Gen.Calendar
@@ -46,15 +49,13 @@ def treeAttrsHW : List String := ["Q", "df_times", "dfs", "dt", "pd", "pm", "pu"
 def treeAttrsBK : List String := ["Q", "df_times", "dfs", "dt", "pd", "pm", "pu", "rt", "tree_times"]
 def treeAttrsBDT : List String := ["Q", "df_times", "dfs", "dt", "rt", "tree_times"]
 
-/-- THE exception list: (class, attribute, why). -/
+/-- THE exception list: (class, attribute, why).  (BlackScholes.bs_type and Bond.pcd/ncd left it with the repairs
+247d001 and 53a2a33.) -/
 def exceptions : List (String × String × Why) :=
-  [("BlackScholes", "bs_type", .defect "C18/bs-default-resolved-in-place"),
-   ("Calendar", "day_in_year", .entryWrites "is_holiday" "C18/calendar-holiday-direct-call"),
+  [("Calendar", "day_in_year", .entryWrites "is_holiday" "C18/calendar-holiday-direct-call"),
    ("Calendar", "weekday", .entryWrites "is_holiday" "C18/calendar-holiday-direct-call"),
    ("Schedule", "adjusted_dts", .defect "C18/schedule-regenerate-reanchors"),
-   ("Schedule", "termination_dt", .defect "C18/schedule-regenerate-reanchors"),
-   ("Bond", "ncd", .defect "C18/bond-stale-coupon-dates-at-maturity"),
-   ("Bond", "pcd", .defect "C18/bond-stale-coupon-dates-at-maturity")] ++
+   ("Schedule", "termination_dt", .defect "C18/schedule-regenerate-reanchors")] ++
   (["accrued_days", "end_accrued_dts", "payment_dts", "payments", "rates", "start_accrued_dts", "year_fracs"].map
     fun a => ("SwapFixedLeg", a, Why.derived "generate_payments")) ++
   (["cumulative_pvs", "payment_dfs", "payment_pvs"].map fun a => ("SwapFixedLeg", a, Why.report)) ++
@@ -66,7 +67,7 @@ def exceptions : List (String × String × Why) :=
   (["forward_df", "fwd_swap_rate", "pv01", "underlying_swap"].map fun a => ("IborSwaption", a, Why.report)) ++
   (["capFloorLetDates", "cap_floor_let_alphas", "cap_floor_let_dfs", "cap_floor_let_fwd_rates", "cap_floor_let_intrinsic",
     "cap_floor_let_values", "cap_floor_pv"].map fun a => ("IborCapFloor", a, Why.report)) ++
-  [("IborCapFloor", "day_counter", .entryWrites "value" "C18/caplet-direct-needs-prior-value"),
+  [("IborCapFloor", "day_counter", .derived "value"),     -- DayCount(self.dc_type), also created by the constructor
    ("IborCapFloor", "value_dt", .report)] ++
   (["_check_refit", "_dfs", "_interpolator", "_is_built", "_times"].map
     fun a => ("IborSingleCurve", a, Why.derived "build_curve")) ++
@@ -74,13 +75,10 @@ def exceptions : List (String × String × Why) :=
   (treeAttrsBK.map fun a => ("BKTree", a, Why.protocol)) ++
   (treeAttrsBDT.map fun a => ("BDTTree", a, Why.protocol))
 
-/-- writes through parameters that are tolerated: (class, method, what, finding or reason) -/
+/-- writes through parameters that are tolerated: (class, method, what) -/
 def paramExceptions : List (String × String × String) :=
-  [("Bond", "key_rate_durations", "rates:[]="),                      -- finding C18/key-rate-durations-mutates-rates
-   ("BondEmbeddedOption", "value", "model:.num_time_steps+="),       -- += 1 … -= 1 : `tree_value_independent_of_previous_tree`
-   ("IborSingleCurve", "__init__", "ibor_deposits:.insert()"),       -- finding C18/deposits-list-mutated
+  [("BondEmbeddedOption", "value", "model:.num_time_steps+="),       -- += 1 … -= 1 : `tree_value_independent_of_previous_tree`
    ("IborSingleCurve", "__init__", "ibor_swaps:.start_dt="),         -- adds an unused attribute to a swap that is then rejected
-   ("IborSingleCurve", "_validate_inputs", "ibor_deposits:.insert()"),
    ("IborSingleCurve", "_validate_inputs", "ibor_swaps:.start_dt=")]
 
 /-- module globals outside the date table that may be used: the print format and the lazily loaded Sobol tables -/
@@ -114,7 +112,7 @@ theorem param_writes_are_exact : paramWrites classes = paramExceptions := by
 
 /-- A method that touches none of the listed attributes and is not in the parameter/global lists passes the plain
 check `disciplinedB` of `summary_discipline_sound`: the exception machinery does not weaken the discipline
-elsewhere.  (Black, Date arithmetic, FXVanillaOption, EquityVanillaOption, BondEmbeddedOption's own state, …) -/
+elsewhere.  (BlackScholes, Black, Bond, Date arithmetic, FXVanillaOption, EquityVanillaOption, …) -/
 theorem unlisted_methods_disciplined :
     (classes.filter (·.anchored)).all (fun c => (c.methods.filter (·.isPublic)).all (fun m =>
       disciplinedB c m || m.rbw.any (fun a => exceptionAttrs.contains (c.name, a)) || !m.pwrites.isEmpty ||
@@ -147,15 +145,6 @@ theorem leg_generators_read_only_immutables :
     (SwapFloatLeg.method? "generate_payment_dts").map (disciplinedB SwapFloatLeg) = some true := by
   decide +kernel
 
-/-- `IborSingleCurve.build_curve` is a no-op once the curve is built (`_is_built` is set by the constructor
-unless `do_build=False`): state machine of the flag and the tables. -/
-structure CurveState where
-  built : Bool
-  tables : Nat
-  deriving DecidableEq, Repr
-
-def buildCurve (fit : Nat) (s : CurveState) : CurveState := if s.built then s else ⟨true, fit⟩
-
 theorem curve_build_once (fit : Nat) (hist : List Unit) :
     hist.foldl (fun s _ => buildCurve fit s) ⟨true, fit⟩ = ⟨true, fit⟩ := by
   induction hist with
@@ -172,22 +161,6 @@ theorem calendar_cache_written_before_read :
     ((readersOf classes "Calendar" "day_in_year" ++ readersOf classes "Calendar" "weekday").all
         (·.startsWith "holiday_")) = true := by
   decide +kernel
-
-/-- the state machine, with the US rule GENERATED from calendar.py: the calendar object caches the weekday and the
-day in the year; −1 stands for Python's `None` (equal to no integer). -/
-structure CalState where
-  wd : Int
-  diy : Int
-
-def CalState.fresh : CalState := ⟨-1, -1⟩
-
-/-- `Calendar.is_holiday(dt)` for the US calendar: store, then dispatch -/
-def isHolidayUS (s : CalState) (m d y wd diy : Int) : Bool × CalState :=
-  let s' : CalState := ⟨wd, diy⟩
-  (Gen.Calendar.holiday_united_states m d y s'.wd s'.diy, s')
-
-/-- `Calendar.holiday_united_states(dt)` called directly: reads whatever the last `is_holiday` left -/
-def holidayUSDirect (s : CalState) (m d y : Int) : Bool := Gen.Calendar.holiday_united_states m d y s.wd s.diy
 
 theorem calendar_is_holiday_state_independent (s s' : CalState) (m d y wd diy : Int) :
     (isHolidayUS s m d y wd diy).1 = (isHolidayUS s' m d y wd diy).1 ∧
@@ -210,24 +183,6 @@ theorem tree_attrs_written_by_build :
     (BDTTree.method? "build_tree").map (fun m => treeAttrsBDT.all m.must.contains && disciplinedB BDTTree m) = some true := by
   decide +kernel
 
-/-- the model object as `BondEmbeddedOption.value` uses it: `num_time_steps` and the tree last built (with how
-many steps and for which curve / maturity argument) -/
-structure TreeModel where
-  numSteps : Nat
-  tree : Option (Nat × Nat)
-
-def TreeModel.build (m : TreeModel) (arg : Nat) : TreeModel := { m with tree := some (m.numSteps, arg) }
-def TreeModel.query (f : Nat × Nat → Nat → Nat) (m : TreeModel) (x : Nat) : Option Nat := m.tree.map (fun t => f t x)
-
-/-- build; query; `num_time_steps += 1`; build; query; `num_time_steps -= 1` -/
-def embeddedValue (f : Nat × Nat → Nat → Nat) (m : TreeModel) (arg x : Nat) : (Option Nat × Option Nat) × TreeModel :=
-  let m1 := m.build arg
-  let v1 := m1.query f x
-  let m2 := { m1 with numSteps := m1.numSteps + 1 }
-  let m3 := m2.build arg
-  let v2 := m3.query f x
-  ((v1, v2), { m3 with numSteps := m3.numSteps - 1 })
-
 theorem tree_value_independent_of_previous_tree (f : Nat × Nat → Nat → Nat) (m m' : TreeModel) (arg x : Nat)
     (h : m.numSteps = m'.numSteps) :
     (embeddedValue f m arg x).1 = (embeddedValue f m' arg x).1 ∧
@@ -242,7 +197,8 @@ theorem date_table_harmless (s s' : Model.TableState) (d m y n : Int) (dt : FinV
   FinVerif.Props.C13.results_independent_of_table_state s s' d m y n dt
 
 /-- the print format is written by `set_date_format` only and read by `Date.__repr__` (and the debug helper
-`test_type`) only: it can reach a result only through text -/
+`test_type`) only — over ALL methods, constructors and private helpers included: it can reach a result only
+through text -/
 theorem date_format_only_read_by_printing :
     ((otherGlobals classes).filter (fun e => e.2.2.endsWith "g_date_type_format")) =
       [("Date", "__repr__", "read date.g_date_type_format"),
@@ -250,132 +206,85 @@ theorem date_format_only_read_by_printing :
        ("<date>", "test_type", "read date.g_date_type_format")] := by
   decide +kernel
 
-/-! ### BlackScholes: DEFAULT resolved in place -/
+/-! ### BlackScholes (repaired by 247d001): DEFAULT is resolved in a local variable -/
 
-inductive BsType | DEFAULT | ANALYTICAL | CRR_TREE | BARONE_ADESI | LSMC | BJERKSUND | FD | PSOR
-  deriving DecidableEq, Repr
-inductive Fam | european | american
-  deriving DecidableEq, Repr
-inductive Engine | analytical | crr | baw | lsmc | bjerksund | fd | psor | notAvailable
-  deriving DecidableEq, Repr
+/-- on the generated summaries: no method of `BlackScholes` writes any attribute any more -/
+theorem blackscholes_stateless : BlackScholes.mutableAttrs = [] ∧ BlackScholes.methods.all (fun m => m.pwrites.isEmpty) = true := by
+  decide +kernel
 
-/-- `BlackScholes.value`: which engine prices the option and what `self.bs_type` is afterwards -/
-def bsValue (t : BsType) : Fam → Engine × BsType
-  | .european =>
-    let t := if t = .DEFAULT then .ANALYTICAL else t
-    (match t with
-      | .ANALYTICAL => .analytical | .CRR_TREE => .crr | .FD => .fd | .PSOR => .psor | .LSMC => .lsmc
-      | _ => .notAvailable, t)
-  | .american =>
-    let t := if t = .DEFAULT then .CRR_TREE else t
-    (match t with
-      | .BARONE_ADESI => .baw | .CRR_TREE => .crr | .LSMC => .lsmc | .BJERKSUND => .bjerksund | .FD => .fd | .PSOR => .psor
-      | _ => .notAvailable, t)
-
-def bsAfter (t : BsType) (hist : List Fam) : BsType := hist.foldl (fun t f => (bsValue t f).2) t
-
-/-- Counterexample (finding C18/bs-default-resolved-in-place): a DEFAULT model that priced a European option
-refuses an American one; one that priced an American option prices a European option on the tree. -/
-theorem bs_default_history_dependent :
-    (bsValue (bsAfter .DEFAULT [.european]) .american).1 = .notAvailable ∧ (bsValue .DEFAULT .american).1 = .crr ∧
-    (bsValue (bsAfter .DEFAULT [.american]) .european).1 = .crr ∧ (bsValue .DEFAULT .european).1 = .analytical := by
-  decide
-
-/-- … and only DEFAULT models are affected: any other type is never rewritten, for every history. -/
-theorem bs_nondefault_history_independent (t : BsType) (ht : t ≠ .DEFAULT) (hist : List Fam) (f : Fam) :
+/-- state machine: the model's type is never rewritten, so for EVERY type (DEFAULT included) and every history
+the engine that prices an option is the one a fresh model uses -/
+theorem bs_default_history_independent (t : BsType) (hist : List Fam) (f : Fam) :
     bsAfter t hist = t ∧ (bsValue (bsAfter t hist) f).1 = (bsValue t f).1 := by
   have h : bsAfter t hist = t := by
     induction hist with
     | nil => rfl
     | cons g r ih =>
-      have : (bsValue t g).2 = t := by cases g <;> simp [bsValue, ht]
+      have : (bsValue t g).2 = t := by cases g <;> rfl
       simp only [bsAfter, List.foldl] at ih ⊢
       rw [this]; exact ih
   exact ⟨h, by rw [h]⟩
 
-/-- the proposed repair (fixes/C18-bs-default-local.diff): resolve DEFAULT in a local variable -/
-def bsValueFixed (t : BsType) (f : Fam) : Engine × BsType := ((bsValue t f).1, t)
+/-- a DEFAULT model prices European options analytically and American ones on the tree, in either order -/
+example : (bsValue (bsAfter .DEFAULT [.european]) .american).1 = .crr ∧
+          (bsValue (bsAfter .DEFAULT [.american]) .european).1 = .analytical := by decide
 
-theorem bs_fixed_history_independent (t : BsType) (hist : List Fam) (f : Fam) :
-    (bsValueFixed (hist.foldl (fun t g => (bsValueFixed t g).2) t) f).1 = (bsValue t f).1 := by
-  have : hist.foldl (fun t g => (bsValueFixed t g).2) t = t := by
-    induction hist with
-    | nil => rfl
-    | cons g r ih => simpa [List.foldl, bsValueFixed] using ih
-  rw [this]
-  rfl
+/-! ### Bond (repaired by 53a2a33): previous / next coupon dates are written before they are read -/
 
-/-! ### Bond: previous / next coupon dates survive a call that finds no coupon after the settlement date -/
+/-- on the generated summaries: no public method of `Bond` may read `pcd` / `ncd` before writing them
+(`_calc_pcd_ncd` assigns both or raises), and `_calc_pcd_ncd` must-writes both -/
+theorem bond_coupon_dates_written_before_read :
+    readersOf classes "Bond" "pcd" = [] ∧ readersOf classes "Bond" "ncd" = [] ∧
+    (Bond.method? "_calc_pcd_ncd").map (fun m => ["pcd", "ncd"].all m.must.contains) = some true := by
+  decide +kernel
 
-/-- `Bond._calc_pcd_ncd`: the first coupon date after `settle` and its predecessor; nothing is assigned when no
-coupon date follows (serial numbers; `prev` = the date before the list element under inspection) -/
-def calcPcdNcd : Int → List Int → Int → Option (Int × Int) → Option (Int × Int)
-  | _, [], _, st => st
-  | prev, c :: rest, settle, st => if c > settle then some (prev, c) else calcPcdNcd c rest settle st
-
-theorem bond_coupon_dates_fresh_when_coupon_follows (prev : Int) (cs : List Int) (settle : Int)
-    (h : ∃ c ∈ cs, c > settle) (st st' : Option (Int × Int)) :
+/-- state machine: what `_calc_pcd_ncd` leaves does not depend on what the previous call left, for every coupon
+schedule and settlement date (no hypothesis: with no coupon after the settlement date both are cleared) -/
+theorem bond_coupon_dates_independent_of_previous_call (prev : Int) (cs : List Int) (settle : Int)
+    (st st' : Option (Int × Int)) :
     calcPcdNcd prev cs settle st = calcPcdNcd prev cs settle st' := by
   induction cs generalizing prev with
-  | nil => obtain ⟨c, hc, _⟩ := h; cases hc
+  | nil => rfl
   | cons c rest ih =>
     by_cases hc : c > settle
     · simp [calcPcdNcd, hc]
     · simp only [calcPcdNcd, hc, if_false]
-      apply ih
-      obtain ⟨c', hc', hgt⟩ := h
-      rcases List.mem_cons.mp hc' with rfl | hr
-      · exact absurd hgt hc
-      · exact ⟨c', hr, hgt⟩
+      exact ih c
 
-/-- Counterexample (finding C18/bond-stale-coupon-dates-at-maturity): coupons at 100, 200, 300; settling at 300
-(maturity) a fresh bond has no coupon dates (`None` → the caller raises), a bond that was asked about settlement
-150 before still carries (100, 200). -/
-theorem bond_stale_coupon_dates :
-    calcPcdNcd 0 [100, 200, 300] 300 none = none ∧
-    calcPcdNcd 0 [100, 200, 300] 300 (calcPcdNcd 0 [100, 200, 300] 150 none) = some (100, 200) := by
-  decide
+/-- the former witness: settling on the maturity date after a call inside a period now gives "no coupon dates"
+(FinError) exactly as on a fresh bond -/
+example : calcPcdNcd 0 [100, 200, 300] 300 (calcPcdNcd 0 [100, 200, 300] 150 none) = none ∧
+          calcPcdNcd 0 [100, 200, 300] 150 none = some (100, 200) := by decide
 
-/-! ### IborCapFloor: the day counter exists only after `value()` -/
+/-! ### IborCapFloor (repaired by 5c33524): the day counter is created by the constructor -/
 
-def capValue (_dc : Option Nat) (dcType : Nat) : Option Nat := some dcType          -- value(): self.day_counter = DayCount(...)
-def capletDirect (dc : Option Nat) : Option Nat := dc                               -- none = AttributeError on None
+/-- on the generated summaries: the constructor writes `day_counter`; its only other writer is `value` -/
+theorem cap_day_counter_single_writer :
+    IborCapFloor.ctor.contains "day_counter" = true ∧ writersOf classes "IborCapFloor" "day_counter" = ["value"] := by
+  decide +kernel
 
-theorem caplet_direct_needs_value (dcType : Nat) :
-    capletDirect none = none ∧ capletDirect (capValue none dcType) = some dcType := by
-  simp [capletDirect, capValue]
+theorem caplet_direct_independent_of_value (dcType : Nat) :
+    capletDirect (capCtor dcType) = some dcType ∧ capletDirect (capValue (capCtor dcType) dcType) = capletDirect (capCtor dcType) := by
+  simp [capletDirect, capValue, capCtor]
 
-/-! ### caller-owned lists -/
+/-! ### caller-owned lists (repaired by 4de3863 and b2f138f) -/
 
-/-- `IborSingleCurve._validate_inputs` on the caller's deposit list (start dates only): a synthetic deposit
-starting on the valuation date is inserted in front when swaps and deposits start after it -/
-def validateDeposits (valueDt swapStart : Int) (depoStarts : List Int) : List Int :=
-  match depoStarts with
-  | [] => []
-  | d :: rest => if swapStart > valueDt ∧ d > valueDt then valueDt :: d :: rest else d :: rest
+/-- on the generated summaries: no method writes through a `rates` or `ibor_deposits` parameter any more -/
+theorem no_parameter_write_to_rates_or_deposits :
+    ((paramWrites classes).filter (fun e => e.2.2.startsWith "rates:" || e.2.2.startsWith "ibor_deposits:")) = [] := by
+  decide +kernel
 
-/-- Counterexample (finding C18/deposits-list-mutated): the caller's list has one more element afterwards … -/
-theorem deposits_list_mutated : validateDeposits 0 2 [2, 2] = [0, 2, 2] := by decide
+/-- the caller's deposit list is returned as it was, for every input; the curve still uses the bridged list -/
+theorem deposits_list_not_mutated (v s : Int) (l : List Int) :
+    (validateDeposits v s l).1 = l ∧ (validateDeposits 0 2 [2, 2]).2 = [0, 2, 2] := by
+  constructor
+  · cases l <;> rfl
+  · decide
 
-/-- … while a second curve built from the (already extended) list sees the same instruments: the insertion
-happens once. -/
-theorem deposits_insertion_idempotent (v s : Int) (l : List Int) :
-    validateDeposits v s (validateDeposits v s l) = validateDeposits v s l := by
-  cases l with
-  | nil => rfl
-  | cons d rest =>
-    by_cases h : s > v ∧ d > v
-    · simp [validateDeposits, h]
-    · simp [validateDeposits, h]
-
-/-- `Bond.key_rate_durations`: each key rate is shifted up by `shift`, then down by `2·shift`, and never put
-back: the caller's `rates` come back lowered by `shift` (finding C18/key-rate-durations-mutates-rates). -/
-def krdRatesAfter (shift : Int) (rates : List Int) : List Int := rates.map (fun r => r + shift - 2 * shift)
-
-theorem krd_rates_shifted : krdRatesAfter 1 [300, 350] = [299, 349] ∧
-    (∀ shift rates, krdRatesAfter shift rates = rates.map (· - shift)) := by
-  refine ⟨by decide, ?_⟩
-  intro shift rates
+/-- the caller's key rates come back unchanged, for every input (the shifting happens on the copy) -/
+theorem krd_rates_not_mutated (shift : Int) (rates : List Int) :
+    (krdRatesAfter shift rates).1 = rates ∧ (krdRatesAfter shift rates).2 = rates.map (· - shift) := by
+  refine ⟨rfl, ?_⟩
   simp only [krdRatesAfter]
   congr 1
   funext r
